@@ -191,7 +191,8 @@ pub struct Obs {
     pub expect_span: Option<u32>,
     pub expect_incoming: Option<Inc>,
     pub expect_unsampled: bool,
-    pub under_half: bool,
+    /// directly under a pushed half header: what that header carries
+    pub under_half: Option<(Option<String>, Option<String>, bool)>,
     pub got: (Option<String>, Option<String>, Option<String>),
     pub tp: (Option<String>, Option<String>, bool),
 }
@@ -401,8 +402,10 @@ pub struct Strand {
     /// inside an unsampled trace (traceparent runtime)
     pub unsampled: u32,
     /// inside a pushed half header (one id all zero): it is no parent and starts no trace, but whatever ids it does
-    /// carry are the inner context's to show; ambient ids are not judged directly under it
-    pub half: u32,
+    /// carry are the inner context's to show; ambient ids are not judged directly under it. What each pushed one
+    /// carries (trace id, parent id, sampled bit), innermost last: while nothing is opened under it, that is what
+    /// `Traceparent::current` has to report
+    pub half: Vec<(Option<String>, Option<String>, bool)>,
 }
 
 impl Strand {
@@ -458,7 +461,7 @@ fn flags_sampled(header: &str) -> bool {
 
 fn observe(w: &World, st: &Strand, whence: &'static str) {
     let (es, ei) = st.innermost();
-    let under_half = st.half > 0 && es.is_none() && ei.is_none();
+    let under_half = if es.is_none() && ei.is_none() && st.unsampled == 0 { st.half.last().cloned() } else { None };
     let o = Obs {
         strand: st.id,
         whence,
@@ -482,7 +485,7 @@ fn emit_event(w: &World, st: &Strand, eid: u32) {
     {
         let mut l = lg(&w.log);
         l.trace.push(format!("{} emits event {eid}", st.name));
-        if st.half > 0 && es.is_none() && ei.is_none() {
+        if !st.half.is_empty() && es.is_none() && ei.is_none() && st.unsampled == 0 {
             l.events_under_half.insert(eid);
         }
         l.events.push((eid, st.id, es, ei, st.unsampled > 0));
@@ -504,7 +507,7 @@ fn new_span_info(w: &World, st: &Strand, sid: u32, form: Form, exit: Exit, enabl
         exit,
         form,
         is_root,
-        under_half: is_root && st.half > 0,
+        under_half: is_root && !st.half.is_empty(),
         in_unsampled: st.unsampled > 0 || (TP && is_root && !sampled && !w.no_sampler),
         cancelled: false,
         expect_name: None,
@@ -1122,8 +1125,15 @@ fn hex_ids(inc: &Incoming) -> Option<(Option<String>, Option<String>, bool)> {
 }
 
 /// Partial incoming ids are only used where no trace is active; elsewhere the node pushes both ids.
-fn effective_incoming(st: &Strand, inc: &Incoming) -> Incoming {
+fn effective_incoming(w: &World, st: &Strand, inc: &Incoming) -> Incoming {
     match inc {
+        // Under the sampled-trace filter half a header is only pushed with the sampled bit set. That filter asks the
+        // active traceparent's flag whatever else the traceparent holds, so with `-00` it would drop what is emitted
+        // under the half header - the root of a new trace included, sampler verdict or not. The property does not
+        // say what an unsampled flag on a header that names no trace means, so that combination is not judged.
+        Incoming::Header { text } if w.in_sampled_filter && !st.in_trace() && is_half(text) && text.ends_with("-00") => Incoming::Header {
+            text: format!("{}-01", &text[..text.len() - 3]),
+        },
         Incoming::Ids { trace, span, repr, part } if *part != 0 && st.in_trace() => Incoming::Ids {
             trace: *trace,
             span: *span,
@@ -1132,13 +1142,17 @@ fn effective_incoming(st: &Strand, inc: &Incoming) -> Incoming {
         },
         // half a header is only pushed where no trace is active (what it does to an enclosing trace's ambient ids is
         // the inner context's business, not modelled here): elsewhere its zero half is filled in
-        Incoming::Header { text } if st.in_trace() && (text.contains("-0000000000000000-") || text.starts_with("00-00000000000000000000000000000000-")) => Incoming::Header {
+        Incoming::Header { text } if st.in_trace() && is_half(text) => Incoming::Header {
             text: text
                 .replace("-0000000000000000-", "-def0000000000fff-")
                 .replace("00-00000000000000000000000000000000-", "00-abc00000000000000000000000000fff-"),
         },
         other => other.clone(),
     }
+}
+
+fn is_half(text: &str) -> bool {
+    text.contains("-0000000000000000-") || text.starts_with("00-00000000000000000000000000000000-")
 }
 
 fn ids_frame(w: &Arc<World>, trace: u128, span: u64, repr: u8, part: u8) -> Frame<TheCtxt> {
@@ -1194,6 +1208,21 @@ fn push_incoming_model(st: &mut Strand, inc: &Incoming) -> bool {
     }
 }
 
+/// A pushed header that parses: a whole one is an incoming context; half a one (an all-zero id) is no parent and starts
+/// no trace, it is only what `Traceparent::current` reports until something is opened under it.
+fn push_header_model(w: &World, st: &mut Strand, inc: &Incoming, tp: &Traceparent) {
+    if !push_incoming_model(st, inc) {
+        let Incoming::Header { text } = inc else { unreachable!() };
+        st.half.push((tp.trace_id().map(|t| t.to_string()), tp.span_id().map(|s| s.to_string()), flags_sampled(text)));
+        w.probe("half_header_pushed");
+        if tp.trace_id().is_some() {
+            w.probe("half_header_trace_id_only");
+        } else if tp.span_id().is_some() {
+            w.probe("half_header_parent_id_only");
+        }
+    }
+}
+
 fn pop_incoming_model(st: &mut Strand, inc: &Incoming) {
     if let Some((_, _, sampled)) = hex_ids(inc) {
         if TP && !sampled {
@@ -1209,7 +1238,7 @@ fn run_incoming_sync(w: &Arc<World>, st: &mut Strand, inc: &Incoming, body: &Arc
     w.probe("incoming_ids_pushed");
     match inc {
         Incoming::Ids { .. } => {
-            let eff = effective_incoming(st, inc);
+            let eff = effective_incoming(w, st, inc);
             let inc = &eff;
             let Incoming::Ids { trace, span, repr, part } = inc else { unreachable!() };
             let frame = ids_frame(w, *trace, *span, *repr, *part);
@@ -1221,7 +1250,7 @@ fn run_incoming_sync(w: &Arc<World>, st: &mut Strand, inc: &Incoming, body: &Arc
             pop_incoming_model(st, inc);
         }
         Incoming::Header { .. } => {
-            let eff = effective_incoming(st, inc);
+            let eff = effective_incoming(w, st, inc);
             let inc = &eff;
             let Incoming::Header { text } = inc else { unreachable!() };
             match Traceparent::try_from_str(text) {
@@ -1237,10 +1266,7 @@ fn run_incoming_sync(w: &Arc<World>, st: &mut Strand, inc: &Incoming, body: &Arc
                     st.incoming_at.clear();
                     st.unsampled = 0;
                 }
-                if !push_incoming_model(st, inc) {
-                    st.half += 1;
-                    w.probe("half_header_pushed");
-                }
+                push_header_model(w, st, inc, &tp);
                 frame.call(|| {
                     observe(w, st, "inside pushed header");
                     run_sync(w, st, body)
@@ -1325,7 +1351,7 @@ fn spawn_task(w: &Arc<World>, st: &Strand, body: &Arc<Vec<S>>, header: Option<St
                         _ => unreachable!(),
                     })
                     .expect("formatted header parses");
-                    push_incoming_model(&mut child, &inc);
+                    push_header_model(&w2, &mut child, &inc, &tp);
                     tp.push()
                         .in_future(async {
                             run_async(&w2, &mut child, &body).await;
@@ -1373,7 +1399,7 @@ fn run_async<'a>(w: &'a Arc<World>, st: &'a mut Strand, nodes: &'a Arc<Vec<S>>) 
                     observe(w, st, "after async span ended");
                 }
                 S::Incoming(inc @ Incoming::Ids { .. }, body) => {
-                    let eff = effective_incoming(st, inc);
+                    let eff = effective_incoming(w, st, inc);
                     let inc = &eff;
                     let Incoming::Ids { trace, span, repr, part } = inc else { unreachable!() };
                     let frame = ids_frame(w, *trace, *span, *repr, *part);
@@ -1384,7 +1410,7 @@ fn run_async<'a>(w: &'a Arc<World>, st: &'a mut Strand, nodes: &'a Arc<Vec<S>>) 
                     observe(w, st, "after incoming frame future");
                 }
                 S::Incoming(inc0 @ Incoming::Header { .. }, body) => {
-                    let eff = effective_incoming(st, inc0);
+                    let eff = effective_incoming(w, st, inc0);
                     let inc = &eff;
                     let Incoming::Header { text } = inc else { unreachable!() };
                     match Traceparent::try_from_str(text) {
@@ -1400,10 +1426,7 @@ fn run_async<'a>(w: &'a Arc<World>, st: &'a mut Strand, nodes: &'a Arc<Vec<S>>) 
                             st.incoming_at.clear();
                             st.unsampled = 0;
                         }
-                        if !push_incoming_model(st, inc) {
-                            st.half += 1;
-                            w.probe("half_header_pushed");
-                        }
+                        push_header_model(w, st, inc, &tp);
                         frame.in_future(run_async(w, st, body)).await;
                         *st = saved;
                         observe(w, st, "after header frame future");
@@ -1553,10 +1576,7 @@ pub fn gen_nodes(ch: &mut Choices, cfg: &GenCfg, depth: u32, budget: &mut u32, n
                 let inc = if TP {
                     let t = 0xabc0_0000_0000_0000_0000_0000_0000_0000u128 + *next as u128;
                     let s = 0xdef0_0000_0000_0000u64 + *next as u64;
-                    // (weight 0: half headers are not generated - see DESIGN 11.5, seed C18r8: what a half header shows
-                    // as current / ambient while it is active is not modelled yet, and the first attempt raised alarms on
-                    // the unchanged tree)
-                    let text = match ch.weighted(&[5, 3, 1, 1, 2, 1, 0]) {
+                    let text = match ch.weighted(&[5, 3, 1, 1, 2, 1, 2]) {
                         // half a header: a trace id with an all-zero parent id, or the other way round. It parses, but
                         // it names no parent: what is opened under it is a new trace, sampler and all
                         6 => {
@@ -2035,10 +2055,15 @@ fn posthoc(w: &World, focus: &'static str) {
     }
     // events carry the ids of the innermost enclosing enabled span
     for (eid, strand, es, ei, unsampled) in &l.events {
+        let recs: Vec<&Rec> = l.recs.iter().filter(|r| !r.is_span && r.eid == Some(*eid)).collect();
         if l.events_under_half.contains(eid) {
+            // directly under a pushed half header: emitted like anything outside a trace (the combination the
+            // sampled-trace filter would drop is not generated); which of the header's ids it carries is not judged
+            if recs.len() != 1 && !dead_strand(*strand) {
+                v.push((c04, "event_count", format!("event {eid} (under a pushed half header) was recorded {} times", recs.len())));
+            }
             continue;
         }
-        let recs: Vec<&Rec> = l.recs.iter().filter(|r| !r.is_span && r.eid == Some(*eid)).collect();
         if TP && w.in_sampled_filter && *unsampled {
             if !recs.is_empty() {
                 v.push(("C18", "event_in_unsampled_trace_emitted", format!("event {eid} was emitted inside an unsampled trace although the sampled-trace filter is installed")));
@@ -2086,7 +2111,16 @@ fn posthoc(w: &World, focus: &'static str) {
             (None, Some((t, s))) => Some((t.clone(), s.clone())),
             (None, None) => Some((None, None)),
         };
-        if o.under_half {
+        if let Some(hdr) = &o.under_half {
+            // directly under a pushed half header: it is what was pushed, so it is what is current, flag and all
+            // (which of its ids show as ambient ids is the inner context's business and is not judged)
+            if TP && o.tp != *hdr {
+                v.push((
+                    "C18",
+                    "current_traceparent",
+                    format!("strand {} {}: Traceparent::current is {:?}; the innermost thing in scope is a pushed header carrying {hdr:?}", o.strand, o.whence, o.tp),
+                ));
+            }
             continue;
         }
         if TP && o.expect_unsampled {
